@@ -136,3 +136,612 @@ Proof.
   - unfold lenN. cbn. lia.
   - rewrite lenN_app, lenN_cons. pose proof (H a). specialize (IHl H). lia.
 Qed.
+(* ------------------------------------------------------------------ writer vs spec: committed streams *)
+Definition part_ok (file : list N) (p : part) (it : item) : Prop :=
+  p_size p = lenN (fst it) /\ snd it < two64 /\
+  exists pre rest, file = pre ++ write_varint (snd it) ++ fst it ++ rest /\ lenN pre = p_off p.
+
+Definition stream_ok (file : list N) (ws : wstream) (ss : sstream) : Prop :=
+  ws_name ws = ss_name ss /\ name_wf (ss_name ss) /\ ws_raw ws = ss_raw ss /\ ss_raw ss < two64 /\
+  Forall2 (part_ok file) (ws_parts ws) (ss_parts ss).
+
+Fixpoint find_idx (name : list N) (i : N) (l : list (list N)) : option N :=
+  match l with
+  | [] => None
+  | x :: r => if name_eqb name x then Some i else find_idx name (i + 1) r
+  end.
+
+Lemma sp_find_idx : forall name l i, sp_find name i l = find_idx name i (map ss_name l).
+Proof. induction l; intros; cbn [sp_find find_idx map]; [reflexivity|]. rewrite IHl. reflexivity. Qed.
+
+Lemma find_idx_app : forall name l i x,
+  find_idx name i (l ++ [x]) =
+  match find_idx name i l with Some k => Some k | None => if name_eqb name x then Some (i + lenN l) else None end.
+Proof.
+  induction l; intros; cbn [find_idx app].
+  - rewrite lenN_nil, N.add_0_r. reflexivity.
+  - destruct (name_eqb name a); [reflexivity|]. rewrite IHl, lenN_cons. replace (i + 1 + lenN l) with (i + (1 + lenN l)) by lia. reflexivity.
+Qed.
+
+Lemma find_idx_none : forall name l i, find_idx name i l = None <-> ~ In name l.
+Proof.
+  induction l; intros; cbn [find_idx In]; split; intro H; try tauto.
+  - destruct (name_eqb name a) eqn:E; [discriminate|]. apply name_eqb_neq in E. apply IHl in H. intros [X|X]; [congruence | contradiction].
+  - destruct (name_eqb name a) eqn:E.
+    + apply name_eqb_eq in E. subst. tauto.
+    + apply IHl. tauto.
+Qed.
+
+Record Rcore (w : writer) (st : list sstream) : Prop := {
+  Rc_off : w_off w = lenN (w_bytes w);
+  Rc_streams : Forall2 (stream_ok (w_bytes w)) (w_streams w) st;
+  Rc_map : forall name, map_get name (w_map w) = find_idx name 0 (map ss_name st);
+  Rc_nodup : NoDup (map ss_name st)
+}.
+
+Lemma part_ok_mono : forall file more p it, part_ok file p it -> part_ok (file ++ more) p it.
+Proof.
+  intros file more p it (H1 & H2 & pre & rest & H3 & H4). split; [assumption|]. split; [assumption|].
+  exists pre, (rest ++ more). split; [|assumption]. rewrite H3. rewrite <- !app_assoc. reflexivity.
+Qed.
+
+Lemma stream_ok_mono : forall file more ws ss, stream_ok file ws ss -> stream_ok (file ++ more) ws ss.
+Proof.
+  intros file more ws ss (H1 & H2 & H3 & H4 & H5). repeat split; try assumption.
+  eapply Forall2_impl; [|eassumption]. intros. apply part_ok_mono. assumption.
+Qed.
+
+Lemma Rcore_init : Rcore w_init [].
+Proof. constructor; cbn; try reflexivity; constructor. Qed.
+
+(* add_part against the spec's commit *)
+Lemma add_part_core : forall w st sid d m, Rcore w st -> m < two64 ->
+  match sp_commit1 st sid (d, m) with
+  | Some st' => exists w', add_part w sid d m = (w', Ok tt) /\ Rcore w' st' /\ w_buf w' = w_buf w
+  | None => add_part w sid d m = (w, Err)
+  end.
+Proof.
+  intros w st sid d m [Ho Hs Hm Hn] Hmeta. unfold sp_commit1, add_part.
+  rewrite <- (Forall2_lenN _ _ _ Hs).
+  destruct (sid <? lenN (w_streams w)) eqn:E.
+  - destruct (lenN (w_streams w) <=? sid) eqn:E2; [lia|].
+    eexists. split; [reflexivity|]. split; [|reflexivity].
+    assert (Hb : w_bytes (mkW (w_off w + lenN (write_varint m) + lenN d)
+                 (upd_nth (N.to_nat sid) (ws_push_part (mkPart (w_off w) (lenN d))) (w_streams w))
+                 (w_map w) (w_buf w) (d :: write_varint m :: w_chunks w)) = w_bytes w ++ write_varint m ++ d).
+    { unfold w_bytes. cbn [w_chunks]. apply concat_rev_cons2. }
+    constructor.
+    + rewrite Hb. cbn [w_off]. rewrite !lenN_app. lia.
+    + rewrite Hb. cbn [w_streams]. apply Forall2_upd_nth.
+      * eapply Forall2_impl; [|eassumption]. intros. apply stream_ok_mono. assumption.
+      * intros a b (H1 & H2 & H3 & H4 & H5). unfold ws_push_part. cbn [ws_name ws_raw ws_parts ss_name ss_raw ss_parts].
+        repeat split; try assumption. apply Forall2_app_one; [assumption|].
+        unfold part_ok. cbn [p_size p_off fst snd]. split; [reflexivity|]. split; [assumption|].
+        exists (w_bytes w), []. split; [rewrite app_nil_r; reflexivity | symmetry; assumption].
+    + cbn [w_map]. intro name. rewrite Hm. f_equal. symmetry. apply map_upd_nth_id. reflexivity.
+    + erewrite map_upd_nth_id by reflexivity. assumption.
+  - destruct (lenN (w_streams w) <=? sid) eqn:E2; [reflexivity | lia].
+Qed.
+(* ------------------------------------------------------------------ write_buffer vs the spec's pending list *)
+Definition flatten (b : list (N * list item)) : list (N * item) :=
+  flat_map (fun g => map (pair (fst g)) (snd g)) b.
+
+Inductive buf_wf : list (N * list item) -> Prop :=
+| bw_nil : buf_wf []
+| bw_cons : forall k v r, v <> [] -> Forall (fun g => k < fst g) r -> buf_wf r -> buf_wf ((k, v) :: r).
+
+Lemma ins_stable_pass : forall x k (v : list item) l, ~ (fst x < k) ->
+  ins_stable x (map (pair k) v ++ l) = map (pair k) v ++ ins_stable x l.
+Proof.
+  induction v; intros l H; cbn [map app ins_stable]; [reflexivity|].
+  cbn [fst]. destruct (fst x <? k) eqn:E; [lia|]. rewrite IHv by assumption. reflexivity.
+Qed.
+
+Lemma ins_stable_head : forall x l, Forall (fun y => fst x < fst y) l -> ins_stable x l = x :: l.
+Proof.
+  intros x l H. destruct H; cbn [ins_stable]; [reflexivity|]. destruct (fst x <? fst x0) eqn:E; [reflexivity | lia].
+Qed.
+
+Lemma flatten_keys : forall k r, Forall (fun g => k < fst g) r -> Forall (fun y : N * item => k < fst y) (flatten r).
+Proof.
+  induction r; intros H; cbn [flatten flat_map]; [constructor|]. inversion H; subst.
+  apply Forall_app. split; [|apply IHr; assumption].
+  apply Forall_forall. intros y Hy. apply in_map_iff in Hy. destruct Hy as (z & <- & _). cbn [fst]. assumption.
+Qed.
+
+Lemma buf_push_keys : forall (P : N -> Prop) sid it b, P sid -> Forall (fun g => P (fst g)) b ->
+  Forall (fun g => P (fst g)) (buf_push sid it b).
+Proof.
+  induction b as [|[k v] r]; intros Hs Hb; cbn [buf_push].
+  - constructor; [assumption | constructor].
+  - inversion Hb; subst. destruct (sid <? k); [constructor; assumption|].
+    destruct (sid =? k); constructor; auto.
+Qed.
+
+Lemma buf_push_spec : forall sid it b, buf_wf b ->
+  flatten (buf_push sid it b) = ins_stable (sid, it) (flatten b) /\ buf_wf (buf_push sid it b).
+Proof.
+  induction b as [|[k v] r]; intros H; cbn [buf_push].
+  - split; [reflexivity|]. constructor; [discriminate | constructor | constructor].
+  - inversion H; subst. destruct (sid <? k) eqn:E1.
+    + split.
+      * cbn [flatten flat_map fst snd map app]. symmetry. destruct v as [|v0 v']; [contradiction|].
+        cbn [map app ins_stable fst]. rewrite E1. reflexivity.
+      * constructor; [discriminate | | assumption]. constructor; [cbn [fst]; lia|].
+        eapply Forall_impl; [|eassumption]. cbn. intros. lia.
+    + destruct (sid =? k) eqn:E2.
+      * apply N.eqb_eq in E2. subst k. split.
+        -- cbn [flatten flat_map fst snd]. rewrite map_app. cbn [map]. rewrite <- app_assoc. cbn [app].
+           rewrite ins_stable_pass by (cbn [fst]; lia). f_equal.
+           symmetry. apply ins_stable_head. apply (flatten_keys sid r). assumption.
+        -- constructor; [destruct v; discriminate | assumption | assumption].
+      * destruct (IHr H5) as [I1 I2]. split.
+        -- cbn [flatten flat_map fst snd]. fold (flatten (buf_push sid it r)). fold (flatten r).
+           rewrite I1. symmetry. apply ins_stable_pass. cbn [fst]. lia.
+        -- constructor; [assumption | | assumption].
+           apply (buf_push_keys (fun x => k < x)); [lia | assumption].
+Qed.
+
+Lemma sort_by_sid_snoc : forall l x, sort_by_sid (l ++ [x]) = ins_stable x (sort_by_sid l).
+Proof. intros. unfold sort_by_sid. rewrite fold_left_app. reflexivity. Qed.
+
+Lemma Forall_ins_stable : forall (P : N * item -> Prop) x l, P x -> Forall P l -> Forall P (ins_stable x l).
+Proof.
+  induction l; intros Hx Hl; cbn [ins_stable].
+  - constructor; [assumption | constructor].
+  - inversion Hl; subst. destruct (fst x <? fst a); constructor; auto.
+Qed.
+
+Lemma Forall_sort_by_sid : forall (P : N * item -> Prop) l, Forall P l -> Forall P (sort_by_sid l).
+Proof.
+  intros P l. induction l using rev_ind; intros H.
+  - constructor.
+  - rewrite sort_by_sid_snoc. apply Forall_app in H. destruct H as [H1 H2]. inversion H2; subst.
+    apply Forall_ins_stable; auto.
+Qed.
+
+Lemma sp_commit_all_app : forall l1 l2 st,
+  sp_commit_all st (l1 ++ l2) =
+  match sp_commit_all st l1 with (st1, WOk) => sp_commit_all st1 l2 | other => other end.
+Proof.
+  induction l1 as [|[sid it] r]; intros; cbn [app sp_commit_all]; [reflexivity|].
+  destruct (sp_commit1 st sid it); [apply IHr | reflexivity].
+Qed.
+
+Lemma sp_commit_all_res : forall l st, snd (sp_commit_all st l) = WOk \/ snd (sp_commit_all st l) = WErr.
+Proof.
+  induction l as [|[sid it] r]; intros; cbn [sp_commit_all]; [left; reflexivity|].
+  destruct (sp_commit1 st sid it); [apply IHr | right; reflexivity].
+Qed.
+
+Definition meta_ok (x : N * item) : Prop := snd (snd x) < two64.
+
+Lemma flush_items_core : forall its w st sid, Rcore w st -> Forall (fun it => snd it < two64) its ->
+  exists w' st' r, flush_items w sid its = (w', r) /\ sp_commit_all st (map (pair sid) its) = (st', wres_of r) /\
+    Rcore w' st' /\ w_buf w' = w_buf w /\ (r = Ok tt \/ r = Err).
+Proof.
+  induction its as [|[d m] its']; intros w st sid HR Hits; cbn [flush_items map sp_commit_all].
+  - exists w, st, (Ok tt). split; [reflexivity|]. split; [reflexivity|]. split; [assumption|]. split; [reflexivity|]. left; reflexivity.
+  - inversion Hits; subst. cbn [snd] in H1.
+    pose proof (add_part_core w st sid d m HR H1) as A.
+    destruct (sp_commit1 st sid (d, m)) as [st1|].
+    + destruct A as (w1 & A1 & A2 & A3). rewrite A1. cbv beta iota.
+      destruct (IHits' w1 st1 sid A2 H2) as (w' & st' & r & B1 & B2 & B3 & B4 & B5).
+      exists w', st', r. split; [assumption|]. split; [assumption|]. split; [assumption|]. split; [congruence | assumption].
+    + rewrite A. cbv beta iota. exists w, st, Err. split; [reflexivity|]. split; [reflexivity|]. split; [assumption|]. split; [reflexivity|]. right; reflexivity.
+Qed.
+
+Lemma flush_groups_core : forall b w st, Rcore w st -> Forall meta_ok (flatten b) ->
+  exists w' st' r, flush_groups w b = (w', r) /\ sp_commit_all st (flatten b) = (st', wres_of r) /\
+    Rcore w' st' /\ w_buf w' = w_buf w.
+Proof.
+  induction b as [|[sid its] b']; intros w st HR Hm; cbn [flush_groups].
+  - exists w, st, (Ok tt). split; [reflexivity|]. split; [reflexivity|]. split; [assumption | reflexivity].
+  - cbn [flatten flat_map fst snd] in *. fold (flatten b') in *. apply Forall_app in Hm. destruct Hm as [Hm1 Hm2].
+    assert (Hits : Forall (fun it => snd it < two64) its).
+    { apply Forall_forall. intros it Hit. rewrite Forall_forall in Hm1. apply (Hm1 (sid, it)). apply in_map. assumption. }
+    destruct (flush_items_core its w st sid HR Hits) as (w1 & st1 & r1 & A1 & A2 & A3 & A4 & A5).
+    rewrite A1, sp_commit_all_app. unfold item in *. rewrite A2.
+    destruct A5 as [-> | ->]; cbn [wres_of]; cbv beta iota.
+    + destruct (IHb' w1 st1 A3 Hm2) as (w' & st' & r & B1 & B2 & B3 & B4).
+      exists w', st', r. split; [assumption|]. split; [assumption|]. split; [assumption | congruence].
+    + exists w1, st1, Err. split; [reflexivity|]. split; [reflexivity|]. split; assumption.
+Qed.
+
+Lemma NoDup_app_one : forall {A} (l : list A) x, NoDup l -> ~ In x l -> NoDup (l ++ [x]).
+Proof.
+  induction l; intros x H Hx; cbn [app].
+  - constructor; [intros [] | constructor].
+  - inversion H; subst. constructor.
+    + intro Hin. apply in_app_or in Hin. destruct Hin as [Hin | [Hin | []]]; [contradiction|]. subst. apply Hx. left. reflexivity.
+    + apply IHl; [assumption|]. intro. apply Hx. right. assumption.
+Qed.
+
+(* ------------------------------------------------------------------ the simulation *)
+Record Rel (w : writer) (s : spec) : Prop := {
+  R_core : Rcore w (sp_streams s);
+  R_buf : flatten (w_buf w) = sort_by_sid (sp_pending s);
+  R_bufwf : buf_wf (w_buf w);
+  R_pend : Forall meta_ok (sp_pending s)
+}.
+
+Lemma Rel_init : Rel w_init sp_init.
+Proof. constructor; [apply Rcore_init | reflexivity | constructor | constructor]. Qed.
+
+Lemma step_sim : forall w s o, Rel w s -> wop_wf o ->
+  Rel (fst (wstep w o)) (fst (sp_step s o)) /\ snd (wstep w o) = snd (sp_step s o).
+Proof.
+  intros w s o [HC HB HW HP] Hwf. destruct o as [name | sid d m | sid d m | | sid raw]; cbn [wstep sp_step wop_wf] in *.
+  - (* register *)
+    unfold register_stream. pose proof HC as [Ho Hs Hm Hn]. rewrite Hm, <- sp_find_idx.
+    destruct (sp_find name 0 (sp_streams s)) as [id|] eqn:E; cbn [fst snd].
+    + split; [constructor; assumption | reflexivity].
+    + split; [|rewrite (Forall2_lenN _ _ _ Hs); reflexivity].
+      constructor; cbn [sp_streams sp_pending w_buf]; try assumption.
+      rewrite sp_find_idx in E.
+      constructor; cbn [w_off w_streams w_map w_bytes w_chunks].
+      * exact Ho.
+      * apply Forall2_app_one; [exact Hs|]. unfold stream_ok. cbn. repeat split; try assumption; try reflexivity. constructor.
+      * intro nm. cbn [map_get]. rewrite map_app. cbn [map ss_name]. rewrite find_idx_app, <- Hm.
+        rewrite N.add_0_l. unfold lenN at 2. rewrite map_length. fold (lenN (sp_streams s)). rewrite (Forall2_lenN _ _ _ Hs).
+        destruct (name_eqb nm name) eqn:En.
+        -- apply name_eqb_eq in En. subst nm. rewrite Hm, E. reflexivity.
+        -- destruct (map_get nm (w_map w)); reflexivity.
+      * rewrite map_app. cbn [map ss_name]. apply NoDup_app_one; [assumption|]. apply (find_idx_none name _ 0). assumption.
+  - (* add *)
+    pose proof (add_part_core w (sp_streams s) sid d m HC Hwf) as A.
+    destruct (sp_commit1 (sp_streams s) sid (d, m)) as [st'|].
+    + destruct A as (w' & A1 & A2 & A3). rewrite A1. cbv beta iota. cbn [fst snd wres_of]. split; [|reflexivity].
+      constructor; cbn [sp_streams sp_pending]; try assumption; rewrite A3; assumption.
+    + rewrite A. cbv beta iota. cbn [fst snd wres_of]. split; [constructor; assumption | reflexivity].
+  - (* add buffered *)
+    cbn [fst snd]. split; [|reflexivity]. unfold add_part_buffered.
+    destruct (buf_push_spec sid (d, m) (w_buf w) HW) as [B1 B2].
+    constructor; cbn [sp_streams sp_pending w_buf].
+    + destruct HC as [Ho Hs Hm Hn]. constructor; assumption.
+    + rewrite B1, sort_by_sid_snoc, HB. reflexivity.
+    + assumption.
+    + apply Forall_app. split; [assumption|]. constructor; [exact Hwf | constructor].
+  - (* flush *)
+    unfold flush_buffers.
+    assert (HC0 : Rcore (mkW (w_off w) (w_streams w) (w_map w) [] (w_chunks w)) (sp_streams s)).
+    { destruct HC as [Ho Hs Hm Hn]. constructor; assumption. }
+    assert (HM : Forall meta_ok (flatten (w_buf w))) by (rewrite HB; apply Forall_sort_by_sid; assumption).
+    destruct (flush_groups_core (w_buf w) _ _ HC0 HM) as (w' & st' & r & F1 & F2 & F3 & F4).
+    rewrite F1, <- HB, F2. cbv beta iota. cbn [fst snd]. split; [|reflexivity].
+    constructor; cbn [sp_streams sp_pending]; try assumption; try rewrite F4; cbn [w_buf]; try reflexivity; constructor.
+  - (* set raw *)
+    cbn [fst snd]. split; [|reflexivity]. unfold set_raw_size.
+    pose proof HC as [Ho Hs Hm Hn]. rewrite <- (Forall2_lenN _ _ _ Hs).
+    destruct (sid <? lenN (w_streams w)) eqn:E.
+    + constructor; cbn [sp_streams sp_pending w_buf]; try assumption.
+      constructor; cbn [w_off w_streams w_map w_bytes w_chunks]; try assumption.
+      * apply Forall2_upd_nth; [exact Hs|]. intros a b (H1 & H2 & H3 & H4 & H5). unfold stream_ok. cbn. repeat split; assumption.
+      * intro nm. rewrite Hm. f_equal. symmetry. apply map_upd_nth_id. reflexivity.
+      * erewrite map_upd_nth_id by reflexivity. assumption.
+    + constructor; assumption.
+Qed.
+Lemma run_sim : forall ops w s, Rel w s -> Forall wop_wf ops ->
+  Rel (fst (wrun w ops)) (fst (sp_run s ops)) /\ snd (wrun w ops) = snd (sp_run s ops).
+Proof.
+  induction ops as [|o r]; intros w s HR Hwf; cbn [wrun sp_run].
+  - split; [assumption | reflexivity].
+  - inversion Hwf; subst. destruct (step_sim w s o HR H1) as [S1 S2].
+    destruct (wstep w o) as [w1 x]. destruct (sp_step s o) as [s1 y]. cbn [fst snd] in *. subst y.
+    destruct (IHr w1 s1 S1 H2) as [T1 T2].
+    destruct (wrun w1 r) as [w2 xs]. destruct (sp_run s1 r) as [s2 ys]. cbn [fst snd] in *. subst ys.
+    split; [assumption | reflexivity].
+Qed.
+
+(* ------------------------------------------------------------------ the reader on arbitrary bytes: unfolding *)
+Lemma firstnN_all_le : forall {A} n (l : list A), lenN l <= n -> firstnN n l = l.
+Proof. intros. unfold firstnN. apply firstn_all2. unfold lenN in *. lia. Qed.
+
+Definition footer_len (bs : list N) : N := le_value (skipnN (lenN bs - 8) bs).
+
+Lemma deserialize_short : forall max_off bs, lenN bs < 8 -> deserialize max_off bs = ([], Err).
+Proof.
+  intros. unfold deserialize, file_seek_end. aconsts. destruct (lenN bs <? 8) eqn:E; [reflexivity | lia].
+Qed.
+
+Lemma deserialize_unfold : forall max_off bs, 8 <= lenN bs ->
+  deserialize max_off bs =
+  let fsz := footer_len bs in
+  if lenN bs - 8 <? fsz then ([], Err)
+  else let fstart := lenN bs - 8 - fsz in
+       if max_off <? fstart then ([], Err)
+       else ([fsz], obnd (parse_footer fstart (firstnN fsz (skipnN fstart bs)))
+                         (fun sts => Ok (mkR bs sts (build_map 0 sts [])))).
+Proof.
+  intros max_off bs H. unfold deserialize, file_seek_end. aconsts.
+  destruct (lenN bs <? 8) eqn:E; [lia|].
+  unfold file_read_exact at 1. change (8 =? 0) with false. cbv iota.
+  destruct (lenN bs - 8 + 8 <=? lenN bs) eqn:E2; [|lia].
+  rewrite (firstnN_all_le 8) by (rewrite lenN_skipnN; lia).
+  cbv zeta. fold (footer_len bs). set (fsz := footer_len bs).
+  unfold obind, sub_u64. destruct (8 <=? lenN bs) eqn:E3; [|lia].
+  destruct (fsz <=? lenN bs - 8) eqn:E4.
+  - destruct (lenN bs - 8 <? fsz) eqn:E5; [lia|].
+    unfold file_seek_start. destruct (max_off <? lenN bs - 8 - fsz) eqn:E6; [reflexivity|].
+    f_equal. unfold file_read_exact. destruct (fsz =? 0) eqn:E7.
+    + apply N.eqb_eq in E7. rewrite E7. change (firstnN 0 (skipnN (lenN bs - 8 - 0) bs)) with (@nil N).
+      destruct (parse_footer (lenN bs - 8 - 0) []); cbn [obnd]; try reflexivity.
+      destruct (max_off <? 0) eqn:E8; [lia | reflexivity].
+    + destruct (lenN bs - 8 - fsz + fsz <=? lenN bs) eqn:E8; [|lia].
+      destruct (parse_footer (lenN bs - 8 - fsz) (firstnN fsz (skipnN (lenN bs - 8 - fsz) bs))); cbn [obnd]; try reflexivity.
+      destruct (max_off <? 0) eqn:E9; [lia | reflexivity].
+  - destruct (lenN bs - 8 <? fsz) eqn:E5; [reflexivity | lia].
+Qed.
+
+(* ------------------------------------------------------------------ parsing what serialize wrote *)
+Definition to_rs (ws : wstream) : rstream := mkRS (ws_name ws) (ws_raw ws) (ws_parts ws) 0.
+
+Lemma read_name_enc : forall nm rest, name_wf nm -> read_name (nm ++ 0 :: rest) = Some (nm, rest).
+Proof.
+  induction nm; intros rest H; cbn [app read_name]; aconsts.
+  - reflexivity.
+  - inversion H; subst. destruct (a =? 0) eqn:E; [lia|]. rewrite IHnm by assumption.
+    unfold char_utf8. destruct (a <? 128) eqn:E2; [reflexivity | lia].
+Qed.
+
+Lemma obnd_ok : forall {A B} (a : A) (f : A -> outcome B), obnd (Ok a) f = f a.
+Proof. reflexivity. Qed.
+
+Definition part_fits (fs : N) (p : part) : Prop := p_off p + p_size p <= fs.
+
+Lemma read_parts_enc : forall ps fuel fs rest, fs < two64 -> Forall (part_fits fs) ps -> (length ps <= fuel)%nat ->
+  read_parts fuel (lenN ps) fs (flat_map ser_part ps ++ rest) = Ok (ps, rest).
+Proof.
+  induction ps as [|[off sz] ps']; intros fuel fs rest Hfs Hfit Hfuel.
+  - destruct fuel; reflexivity.
+  - destruct fuel as [|f]; [cbn [length] in Hfuel; lia|]. cbn [length] in Hfuel.
+    inversion Hfit; subst. unfold part_fits in H1. cbn [p_off p_size] in H1.
+    cbn [read_parts]. rewrite lenN_cons. destruct (1 + lenN ps' =? 0) eqn:E; [lia|].
+    cbn [flat_map]. unfold ser_part at 1. cbn [p_off p_size]. rewrite <- !app_assoc.
+    rewrite varint_roundtrip_proof by lia. rewrite obnd_ok. cbv beta iota.
+    rewrite varint_roundtrip_proof by lia. rewrite obnd_ok. cbv beta iota.
+    unfold add_u64. destruct (off + sz <? two64) eqn:E2; [|lia].
+    destruct (fs <? off + sz) eqn:E3; [lia|].
+    replace (1 + lenN ps' - 1) with (lenN ps') by lia.
+    rewrite IHps' by (try assumption; lia). reflexivity.
+Qed.
+
+Definition ws_fits (fs : N) (ws : wstream) : Prop :=
+  name_wf (ws_name ws) /\ ws_raw ws < two64 /\ lenN (ws_parts ws) < two64 /\ Forall (part_fits fs) (ws_parts ws).
+
+Lemma ser_part_len : forall p, 1 <= lenN (ser_part p).
+Proof.
+  intros. unfold ser_part. rewrite lenN_app. pose proof (write_varint_nonempty (p_off p)).
+  destruct (write_varint (p_off p)); [contradiction|]. rewrite lenN_cons. lia.
+Qed.
+
+Lemma ser_stream_len : forall s, 1 <= lenN (ser_stream s).
+Proof. intros. unfold ser_stream. rewrite !lenN_app, lenN_cons. lia. Qed.
+
+Lemma read_streams_enc : forall wss fuel fs rest, fs < two64 -> Forall (ws_fits fs) wss -> (length wss <= fuel)%nat ->
+  read_streams fuel (lenN wss) fs (flat_map ser_stream wss ++ rest) = Ok (map to_rs wss).
+Proof.
+  induction wss as [|[nm raw ps] wss']; intros fuel fs rest Hfs Hfit Hfuel.
+  - destruct fuel; reflexivity.
+  - destruct fuel as [|f]; [cbn [length] in Hfuel; lia|]. cbn [length] in Hfuel.
+    inversion Hfit; subst. destruct H1 as (F1 & F2 & F3 & F4). cbn [ws_name ws_raw ws_parts] in *.
+    cbn [read_streams]. rewrite lenN_cons. destruct (1 + lenN wss' =? 0) eqn:E; [lia|].
+    cbn [flat_map]. unfold ser_stream at 1. cbn [ws_name ws_raw ws_parts]. aconsts. rewrite <- !app_assoc. cbn [app].
+    rewrite read_name_enc by assumption.
+    rewrite varint_roundtrip_proof by assumption. rewrite obnd_ok. cbv beta iota.
+    rewrite varint_roundtrip_proof by assumption. rewrite obnd_ok. cbv beta iota.
+    rewrite read_parts_enc; try assumption.
+    + rewrite obnd_ok. cbv beta iota. replace (1 + lenN wss' - 1) with (lenN wss') by lia.
+      rewrite IHwss' by (try assumption; lia). rewrite obnd_ok. reflexivity.
+    + pose proof (lenN_flat_map_ge ser_part ps ser_part_len) as L. rewrite app_length. unfold lenN in L. lia.
+Qed.
+
+Lemma parse_footer_enc : forall w fs, fs < two64 -> lenN (w_streams w) < two64 -> Forall (ws_fits fs) (w_streams w) ->
+  parse_footer fs (footer_of w) = Ok (map to_rs (w_streams w)).
+Proof.
+  intros w fs Hfs Hn Hfit. unfold parse_footer, footer_of.
+  rewrite varint_roundtrip_proof by assumption. rewrite obnd_ok. cbv beta iota.
+  rewrite <- (app_nil_r (flat_map ser_stream (w_streams w))) at 2.
+  apply read_streams_enc; try assumption.
+  pose proof (lenN_flat_map_ge ser_stream (w_streams w) ser_stream_len) as L. unfold lenN in L. lia.
+Qed.
+
+Lemma flat_map_in_len : forall {A B} (f : A -> list B) l x, In x l -> lenN (f x) <= lenN (flat_map f l).
+Proof.
+  induction l; intros x H; cbn [flat_map]; [contradiction|]. rewrite lenN_app. destruct H as [-> | H]; [lia|].
+  specialize (IHl x H). lia.
+Qed.
+
+Lemma part_ok_fits : forall file p it, part_ok file p it -> part_fits (lenN file) p.
+Proof.
+  intros file p it (H1 & H2 & pre & rest & H3 & H4). unfold part_fits. rewrite H3, !lenN_app. lia.
+Qed.
+
+Lemma Rcore_fits : forall w st, Rcore w st -> lenN (footer_of w) < two64 ->
+  Forall (ws_fits (lenN (w_bytes w))) (w_streams w) /\ lenN (w_streams w) < two64.
+Proof.
+  intros w st [Ho Hs Hm Hn] HF. split.
+  - apply Forall_forall. intros ws Hin.
+    destruct (In_nth_error _ _ Hin) as [n Hn'].
+    destruct (Forall2_nth_l _ _ _ _ _ Hs Hn') as (ss & _ & (S1 & S2 & S3 & S4 & S5)).
+    unfold ws_fits. rewrite S1, S3. split; [assumption|]. split; [assumption|]. split.
+    + pose proof (flat_map_in_len ser_stream _ _ Hin) as L1. unfold footer_of in HF. rewrite lenN_app in HF.
+      assert (L2 : lenN (flat_map ser_part (ws_parts ws)) <= lenN (ser_stream ws)) by (unfold ser_stream; rewrite !lenN_app; lia).
+      pose proof (lenN_flat_map_ge ser_part (ws_parts ws) ser_part_len). lia.
+    + clear - S5. induction S5; constructor; [|assumption]. eapply part_ok_fits. eassumption.
+  - unfold footer_of in HF. rewrite lenN_app in HF.
+    pose proof (lenN_flat_map_ge ser_stream (w_streams w) ser_stream_len). lia.
+Qed.
+
+Lemma footer_nonempty : forall w, 1 <= lenN (footer_of w).
+Proof.
+  intros. unfold footer_of. rewrite lenN_app. pose proof (write_varint_nonempty (lenN (w_streams w))).
+  destruct (write_varint (lenN (w_streams w))); [contradiction|]. rewrite lenN_cons. lia.
+Qed.
+
+Lemma close_len : forall w, lenN (close w) = lenN (w_bytes w) + lenN (footer_of w) + 8.
+Proof.
+  intros. unfold close. cbv zeta. rewrite !lenN_app. unfold write_fixed_u64. unfold lenN at 3. rewrite le_bytes_length. lia.
+Qed.
+
+Lemma deserialize_close : forall w st max_off, Rcore w st -> lenN (close w) < two64 -> lenN (close w) <= max_off ->
+  deserialize max_off (close w) =
+  ([lenN (footer_of w)], Ok (mkR (close w) (map to_rs (w_streams w)) (build_map 0 (map to_rs (w_streams w)) []))).
+Proof.
+  intros w st max_off HR H64 Hmax. pose proof (close_len w) as HL. pose proof (footer_nonempty w) as HF.
+  rewrite deserialize_unfold by lia. cbv zeta.
+  assert (Hfl : footer_len (close w) = lenN (footer_of w)).
+  { unfold footer_len. unfold close at 2. cbv zeta. rewrite app_assoc. rewrite skipnN_app_exact by (rewrite lenN_app; lia).
+    apply le_value_fixed. lia. }
+  rewrite Hfl. destruct (lenN (close w) - 8 <? lenN (footer_of w)) eqn:E; [lia|].
+  replace (lenN (close w) - 8 - lenN (footer_of w)) with (lenN (w_bytes w)) by lia.
+  destruct (max_off <? lenN (w_bytes w)) eqn:E2; [lia|]. f_equal.
+  unfold close at 1. cbv zeta. rewrite skipnN_app_exact by reflexivity. rewrite firstnN_app_exact by reflexivity.
+  destruct (Rcore_fits w st HR ltac:(lia)) as [F1 F2].
+  rewrite parse_footer_enc; try assumption; [reflexivity | lia].
+Qed.
+(* ------------------------------------------------------------------ the reopened archive against the spec *)
+Lemma directory_eq : forall file wss st, Forall2 (stream_ok file) wss st ->
+  map (fun s => (rs_name s, rs_raw s, lenN (rs_parts s))) (map to_rs wss) =
+  map (fun ss => (ss_name ss, ss_raw ss, lenN (ss_parts ss))) st.
+Proof.
+  intros file wss st H. induction H; cbn [map]; [reflexivity|].
+  destruct H as (H1 & H2 & H3 & H4 & H5). unfold to_rs at 1 2 3. cbn [rs_name rs_raw rs_parts].
+  rewrite H1, H3, (Forall2_lenN _ _ _ H5), IHForall2. reflexivity.
+Qed.
+
+Lemma names_eq : forall file wss st, Forall2 (stream_ok file) wss st ->
+  map rs_name (map to_rs wss) = map ss_name st.
+Proof.
+  intros file wss st H. induction H; cbn [map]; [reflexivity|].
+  destruct H as (H1 & _). unfold to_rs at 1. cbn [rs_name]. rewrite H1, IHForall2. reflexivity.
+Qed.
+
+Lemma build_map_get : forall sts i m name, NoDup (map rs_name sts) ->
+  map_get name (build_map i sts m) =
+  match find_idx name i (map rs_name sts) with Some k => Some k | None => map_get name m end.
+Proof.
+  induction sts as [|s r]; intros i m name Hn; cbn [build_map map find_idx]; [reflexivity|].
+  inversion Hn; subst. rewrite IHr by assumption. cbn [map_get].
+  destruct (name_eqb name (rs_name s)) eqn:E.
+  - apply name_eqb_eq in E. subst name.
+    destruct (find_idx (rs_name s) (i + 1) (map rs_name r)) eqn:F; [|reflexivity].
+    exfalso. assert (X : find_idx (rs_name s) (i + 1) (map rs_name r) = None) by (apply find_idx_none; assumption). congruence.
+  - reflexivity.
+Qed.
+
+Definition rs_ok (file : list N) (rs : rstream) (x : list item * N) : Prop :=
+  rs_cur rs = snd x /\ Forall2 (part_ok file) (rs_parts rs) (fst x).
+
+Lemma read_part_data_ok : forall max_off file p it, part_ok file p it -> lenN file <= max_off ->
+  snd (read_part_data max_off file p) = Ok (sp_view it).
+Proof.
+  intros max_off file p [d m] (H1 & H2 & pre & rest & H3 & H4) Hmax. cbn [fst snd] in *.
+  unfold read_part_data, sp_view. cbn [fst]. aconsts.
+  destruct d as [|d0 d'].
+  - rewrite H1. reflexivity.
+  - destruct (p_size p =? 0) eqn:E; [rewrite H1, lenN_cons in E; lia|].
+    unfold file_seek_start. destruct (max_off <? p_off p) eqn:E2.
+    { rewrite H3, !lenN_app in Hmax. lia. }
+    rewrite skipnS_eq, H3, skipnN_app_exact by assumption.
+    rewrite varint_roundtrip_proof by assumption. cbn [snd].
+    destruct (p_size p <=? lenN ((d0 :: d') ++ rest)) eqn:E3; [|rewrite lenN_app in E3; lia].
+    rewrite firstnN_app_exact by (symmetry; assumption). reflexivity.
+Qed.
+
+Lemma nthN_Forall2 : forall {A B} (P : A -> B -> Prop) l1 l2 i, Forall2 P l1 l2 ->
+  match nthN l1 i, nthN l2 i with
+  | Some a, Some b => P a b
+  | None, None => True
+  | _, _ => False
+  end.
+Proof.
+  intros A B P l1 l2 i H. unfold nthN. destruct (nth_error l1 (N.to_nat i)) eqn:E.
+  - destruct (Forall2_nth_l _ _ _ _ _ H E) as (b & -> & Hb). assumption.
+  - rewrite (Forall2_nth_none _ _ _ _ H E). exact I.
+Qed.
+
+Lemma rstep_sim : forall max_off file rd st o,
+  r_file rd = file -> lenN file <= max_off -> Forall2 (rs_ok file) (r_streams rd) st ->
+  snd (snd (rstep max_off rd o)) = snd (sp_rstep st o) /\
+  r_file (fst (rstep max_off rd o)) = file /\
+  Forall2 (rs_ok file) (r_streams (fst (rstep max_off rd o))) (fst (sp_rstep st o)).
+Proof.
+  intros max_off file rd st o Hf Hmax HS. destruct o as [sid | sid pid]; cbn [rstep sp_rstep].
+  - unfold get_part. rewrite !nthS_eq. pose proof (nthN_Forall2 _ _ _ sid HS) as X.
+    destruct (nthN (r_streams rd) sid) as [rs|]; destruct (nthN st sid) as [[ps cur]|]; try contradiction.
+    + destruct X as [X1 X2]. cbn [fst snd] in X1, X2. rewrite !nthS_eq, X1.
+      pose proof (nthN_Forall2 _ _ _ cur X2) as Y.
+      destruct (nthN (rs_parts rs) cur) as [p|]; destruct (nthN ps cur) as [it|]; try contradiction.
+      * pose proof (read_part_data_ok max_off file p it Y Hmax) as Z. rewrite Hf.
+        destruct (read_part_data max_off file p) as [al res]. cbn [snd] in Z. subst res. cbn [fst snd obnd r_file r_streams].
+        split; [reflexivity|]. split; [first [assumption | reflexivity]|].
+        apply Forall2_upd_nth; [assumption|]. intros a b [A1 A2]. split; cbn [rs_advance rs_cur rs_parts fst snd]; [congruence | assumption].
+      * cbn [fst snd]. auto.
+    + cbn [fst snd]. auto.
+  - unfold get_part_by_id. rewrite !nthS_eq. pose proof (nthN_Forall2 _ _ _ sid HS) as X.
+    destruct (nthN (r_streams rd) sid) as [rs|]; destruct (nthN st sid) as [[ps cur]|]; try contradiction.
+    + destruct X as [X1 X2]. cbn [fst snd] in X1, X2. rewrite !nthS_eq.
+      pose proof (nthN_Forall2 _ _ _ pid X2) as Y.
+      destruct (nthN (rs_parts rs) pid) as [p|]; destruct (nthN ps pid) as [it|]; try contradiction.
+      * pose proof (read_part_data_ok max_off file p it Y Hmax) as Z. rewrite Hf.
+        destruct (read_part_data max_off file p) as [al res]. cbn [snd] in Z. subst res. cbn [fst snd obnd]. auto.
+      * cbn [fst snd]. auto.
+    + cbn [fst snd]. auto.
+Qed.
+
+Lemma rrun_sim : forall max_off file rops rd st,
+  r_file rd = file -> lenN file <= max_off -> Forall2 (rs_ok file) (r_streams rd) st ->
+  map snd (rrun max_off rd rops) = sp_rrun st rops.
+Proof.
+  induction rops as [|o r]; intros rd st Hf Hmax HS; cbn [rrun sp_rrun map]; [reflexivity|].
+  destruct (rstep_sim max_off file rd st o Hf Hmax HS) as (S1 & S2 & S3).
+  destruct (rstep max_off rd o) as [rd' x]. destruct (sp_rstep st o) as [st' y]. cbn [fst snd map] in *.
+  rewrite S1. f_equal. apply IHr; assumption.
+Qed.
+
+Theorem container_refines_spec_proof : forall ops max_off, Forall wop_wf ops ->
+  let w := fst (wrun w_init ops) in
+  let s := fst (sp_run sp_init ops) in
+  lenN (close w) < two64 -> lenN (close w) <= max_off ->
+  snd (wrun w_init ops) = snd (sp_run sp_init ops) /\
+  exists rd, deserialize max_off (close w) = ([lenN (footer_of w)], Ok rd) /\
+    directory rd = sp_directory s /\
+    (forall name, get_stream_id rd name = sp_find name 0 (sp_streams s)) /\
+    (forall rops, map snd (rrun max_off rd rops) = sp_rrun (sp_read_init s) rops).
+Proof.
+  intros ops max_off Hwf w s H64 Hmax.
+  destruct (run_sim ops w_init sp_init Rel_init Hwf) as [HR Hres]. fold w in HR. fold s in HR.
+  split; [assumption|]. destruct HR as [HC _ _ _]. pose proof HC as [Ho Hs Hm Hn].
+  eexists. split; [apply (deserialize_close w (sp_streams s)); assumption|].
+  split; [|split].
+  - unfold directory, sp_directory. cbn [r_streams]. eapply directory_eq. eassumption.
+  - intro name. unfold get_stream_id. cbn [r_map]. rewrite build_map_get.
+    + rewrite (names_eq _ _ _ Hs), <- sp_find_idx. cbn [map_get]. destruct (sp_find name 0 (sp_streams s)); reflexivity.
+    + rewrite (names_eq _ _ _ Hs). assumption.
+  - intro rops. apply (rrun_sim max_off (close w)); [reflexivity | assumption|]. cbn [r_streams].
+    unfold sp_read_init. clear - Hs. induction Hs; cbn [map]; constructor; [|assumption].
+    destruct H as (_ & _ & _ & _ & H5). split; [reflexivity|]. cbn [to_rs rs_parts fst].
+    eapply Forall2_impl; [|eassumption]. intros. unfold close. cbv zeta. apply part_ok_mono. assumption.
+Qed.
+
+Theorem register_idempotent_proof : forall w name,
+  let (w1, id1) := register_stream w name in
+  let (w2, id2) := register_stream w1 name in
+  id2 = id1 /\ w2 = w1.
+Proof.
+  intros w name. unfold register_stream at 1. destruct (map_get name (w_map w)) as [id|] eqn:E.
+  - unfold register_stream. rewrite E. auto.
+  - unfold register_stream. cbn [w_map map_get]. rewrite name_eqb_refl. auto.
+Qed.
+
+(* a flush leaves nothing buffered (spec level): after it every part added so far is committed or was refused *)
+Theorem flush_commits_everything_proof : forall ops s, sp_pending (fst (sp_run s (ops ++ [WFlush]))) = [].
+Proof.
+  induction ops as [|o r]; intros s; cbn [app sp_run].
+  - cbn [sp_step]. destruct (sp_commit_all (sp_streams s) (sort_by_sid (sp_pending s))). reflexivity.
+  - destruct (sp_step s o) as [s1 x]. specialize (IHr s1). destruct (sp_run s1 (r ++ [WFlush])). assumption.
+Qed.
+
+Definition directory_of_file (bs : list N) : option (list (list N * N * N)) :=
+  match snd (deserialize max_u64 bs) with Ok rd => Some (directory rd) | _ => None end.
